@@ -587,6 +587,19 @@ def run(rep, tier):
     from ..report import Renamed
     from . import C05
     C05.audit_rules(Renamed(rep, {'R05.10': 'R04.20'}), fb)
+    # ---- R04.21 names of emitted functions are C identifiers
+    rep.rule('R04.21', 'the emitted file compiles for every id: where ChartToC builds the name of an emitted function from DOMUtils::idForNode, the id passes through an injective mapping onto C identifiers (idForNode replaces only `.` and `,` and uses the qualified tag name for elements without id)')
+    raw_ids = []
+    for f_ in fb.funcs.values():
+        if not f_.q.startswith('uscxml::ChartToC::'):
+            continue
+        for n_ in f_.walk():
+            if n_.get('callee', {}).get('q', '').endswith('DOMUtils::idForNode'):
+                wrapped = any(a_.get('callee', {}).get('q', '').split('::')[-1] in ('escapeMacro', 'escapeIdentifier') for a_ in f_.ancestors(n_))
+                if not wrapped:
+                    raw_ids.append(n_)
+    rep.check(not raw_ids, 'R04.21', 'ChartToC|idForNode as identifier', locstr(raw_ids[0]) if raw_ids else 'src/uscxml/transform/ChartToC.cpp', 'DOMUtils::idForNode %s' % (
+        'is mapped onto C identifiers wherever it names a function' if not raw_ids else 'is used as part of a C identifier at %d sites without an injective mapping: ids "s-1" / "s:2" give a syntax error, "a.b" and "a_b" the same function name, <sc:transition> the name ..._sc:transition0_on_trans' % len(raw_ids)))
     # ---- R04.19 chart text written between quotes into the emitted tables is escaped
     rep.rule('R04.19', 'the callbacks get the text the interpreter evaluates: every piece of chart text that ChartToC writes between double quotes into the emitted tables (`"\\"" + X + "\\""`) passes through escape(), so that a backslash or a quote in an expression reaches the callback unchanged (and the file compiles)')
     nq = 0
